@@ -60,6 +60,7 @@ class SpecFn:
         step = self.unfold(eng, st, raws)
         zero = z3.RealVal(0) if self.ret == REAL else z3.IntVal(0)
         st.assume(t == z3.If(n <= 0, zero, prev + step))
+        st.assume(self.f(*raws[:-1], z3.IntVal(0)) == zero)
         eng.assume_tag("SPEC:" + self.name)
         return VReal(t) if self.ret == REAL else VInt(t)
 
@@ -82,6 +83,17 @@ class Verifier(Engine, ExprMixin, StmtMixin, CallMixin):
             raise OutOfSubset(f"line {line}: attribute {attr} of {base!r} (no class file)")
         fi = self.src.find_method(relfile, base.cls, attr)
         if fi is None:
+            # class-level constant (ClassVar table)
+            tmod = self.src.module(relfile)
+            if base.cls in tmod.classes:
+                for s_ in tmod.classes[base.cls][0].body:
+                    tgt = val_ = None
+                    if isinstance(s_, ast.AnnAssign) and isinstance(s_.target, ast.Name):
+                        tgt, val_ = s_.target.id, s_.value
+                    elif isinstance(s_, ast.Assign) and isinstance(s_.targets[0], ast.Name):
+                        tgt, val_ = s_.targets[0].id, s_.value
+                    if tgt == attr and val_ is not None:
+                        return self.ev_const_expr(tmod, val_)
             raise OutOfSubset(f"line {line}: {base.cls} has no attribute {attr} in the contract's model")
         if fi.is_property:
             paths = self.call_repo(fi.key, base, [], {}, st, line)
@@ -104,6 +116,7 @@ class Verifier(Engine, ExprMixin, StmtMixin, CallMixin):
         self.loops_seen = set()
         self._param_names_used = set()
         self.bv_u1 = getattr(c, "bv_u1", False)
+        self.no_lemma_axioms = getattr(c, "no_lemma_axioms", False)
         st = State()
         # parameters
         a = fi.node.args
@@ -112,6 +125,8 @@ class Verifier(Engine, ExprMixin, StmtMixin, CallMixin):
             pnames.append(a.vararg.arg)
         if a.kwarg:
             pnames.append(a.kwarg.arg)
+        dotted = {k: v for k, v in case.items() if "." in k}
+        case = {k: v for k, v in case.items() if "." not in k}
         for p in pnames:
             if p not in c.params and p not in case:
                 raise ContractMismatch(f"{c.key}: parameter {p} has no type in the contract")
@@ -132,6 +147,13 @@ class Verifier(Engine, ExprMixin, StmtMixin, CallMixin):
         for g, t in getattr(c, "ghost_params", {}).items():
             st.env[g] = self.mk_param(g, t, st)
             self.param_vals[g] = st.env[g]
+        for path, cv in dotted.items():
+            parts = path.split(".")
+            o = st.env[parts[0]]
+            for q in parts[1:-1]:
+                o = st.objs[o.oid][q]
+            st.objs[o.oid][parts[-1]] = self.mk_param(path, Const(cv), st)
+        case = dict(case, **dotted)
         self.case_consts = case
         for name, expr in c.lets.items():
             st.env[name] = self.spec_val(expr, st)
@@ -210,6 +232,10 @@ class Verifier(Engine, ExprMixin, StmtMixin, CallMixin):
             e = rz.when if rz.when is not None else rz.only_if
             conds.append(self.spec_bool(f"old({e})", st) if e else z3.BoolVal(True))
         self.oblig(st, f"raises:{oc.exc}@{oc.line}", z3.Or(conds), oc.line, label="only-if", cls=matching[0].cls)
+        for rz in matching:
+            for (label, expr) in rz.post:
+                self.oblig(st, f"raises-post:{oc.exc}@{oc.line}", self.spec_bool(expr, st), oc.line, label=label,
+                           cls=rz.cls)
 
     def setup_generator(self, c, st):
         self.yield_index = 0
